@@ -19,6 +19,12 @@ ENTRY = {
         "AGV.C03.logged_transparent",
         "AGV.C03.bound_run_infix",
         "AGV.C03.cst_strict",
+        "AGV.C03.match_end_at_node_end",
+        "AGV.C03.match_end_bounds",
+        "AGV.C03.match_len_bounds",
+        "AGV.C03.match_len_no_token_split",
+        "AGV.C03.match_len_zero_example",
+        "AGV.C03.match_end_direct_child_counterexample",
         "AGV.C03.empty_internal_counterexample",
         "AGV.C03.ellipsis_trivia_counterexample",
     ],
@@ -32,7 +38,7 @@ ENTRY = {
     ],
 }
 MANIFEST = {
-    "text": "Lean theorem match_sound (Props/C03.lean): for every aggregator, strictness, source, fuel, well-formed pattern and candidate, a reported matchedBoth implies an alignment in the sense of the independent specification Spec.Aligns (kinds agree with ERROR as wildcard, token text agrees except for unnamed tokens and under signature, named holes bind named nodes, $$$ absorbs consecutive siblings, only strictness-skippable nodes are left unmatched); instantiated for the environment aggregator and for ComputeEnd/get_match_len; no_named_skipped / cst_nothing_skippable; ellipsis_consecutive (every list handed to the ellipsis callback is a contiguous run of one node's children). Two leniencies of the code are made explicit with decide-checked counter-examples: inner pattern nodes without children (empty_internal_counterexample) and unnamed pattern tokens written directly after $$$, which are never compared (ellipsis_trivia_counterexample; cst_strict gives the strict reading when there are none). Tie to the code: near-miss patterns cut from other nodes, 5 strictness levels, mutated sources with syntax errors, 23 languages; outcome, bindings and get_match_len replayed on the model.",
+    "text": "Lean theorem match_sound (Props/C03.lean): for every aggregator, strictness, source, fuel, well-formed pattern and candidate, a reported matchedBoth implies an alignment in the sense of the independent specification Spec.Aligns (kinds agree with ERROR as wildcard, token text agrees except for unnamed tokens and under signature, named holes bind named nodes, $$$ absorbs consecutive siblings, only strictness-skippable nodes are left unmatched); instantiated for the environment aggregator and for ComputeEnd/get_match_len; no_named_skipped / cst_nothing_skippable; match_len_bounds / match_len_no_token_split (for well-formed trees the reported prefix length stays inside the node and its end is the end of a node of the subtree, never inside a token; match_end_direct_child_counterexample shows that ending inside a direct child is by design under smart); ellipsis_consecutive (every list handed to the ellipsis callback is a contiguous run of one node's children). Two leniencies of the code are made explicit with decide-checked counter-examples: inner pattern nodes without children (empty_internal_counterexample) and unnamed pattern tokens written directly after $$$, which are never compared (ellipsis_trivia_counterexample; cst_strict gives the strict reading when there are none). Tie to the code: near-miss patterns cut from other nodes, 5 strictness levels, mutated sources with syntax errors, 23 languages; outcome, bindings and get_match_len replayed on the model.",
     "note": "Trusted: Lean kernel + standard axioms; harness/driver glue; tree-sitter trees are data. The defect found while building this check (get_match_len underflow when no token was matched) is repaired in /repo (fix: commit) and recorded in KNOWN_FINDINGS.jsonl as fixed.",
     "technique": "Lean 4 proof by simultaneous fuel induction over the six mutually recursive matcher functions against an inductive alignment relation + differential correspondence",
 }
